@@ -9,7 +9,11 @@
            model with chunk size 8 and with chunk size 256 (over the modelled seekable istream).  The
            three must agree (T_C10mp_stream_equals_memory); the common answer is printed, otherwise
            MODEL-SPLIT with the three answers.
+   kind n<K>: the stream-reader programs on the chunked reader model with chunk size K over a stream WITHOUT seek
+           support (stream_of data false): one run, the answer depends on K.
    kind m: the string-reader model (str_run), for reference.
+     k n<K> <pol> <op,op,...> <hexdata>                the class of T_C10mp_nonseekable_outside: LOCAL when every SetPosition
+                                                       of that run stays in the cached window (nonseek_ok), else NONLOCAL
    answers: OK <value> <position> | NOT <position> | ERR <cat>, joined by ';' for q lines *)
 
 let err_cat = function EParse -> "P" | EMismatch -> "M" | EOverflow -> "O" | EInvalidArg -> "IA" | EInternal -> "STD"
@@ -75,6 +79,7 @@ let fmt_answers (names : string list) (l : ans list) : string =
                | AOkAt (v, p) -> Printf.sprintf "OK %s %d" (fmt_val name v) (int_of_n p)
                | ANotAt p -> Printf.sprintf "NOT %d" (int_of_n p)
                | AErrOf e -> "ERR " ^ err_cat e
+               | AIOErr -> "ERR IO"
                | AFuelOut -> "FUEL") in
       go tl rest (s :: acc)
     | [], _ -> failwith "more answers than operations" in
@@ -86,7 +91,7 @@ let () =
       let line = input_line stdin in
       let t = Array.of_list (split_on ' ' line) in
       (try
-        if t.(0) = "r" || t.(0) = "q" || t.(0) = "p" then begin
+        if t.(0) = "r" || t.(0) = "q" || t.(0) = "p" || t.(0) = "k" then begin
           let errpos = (t.(0) = "p") in
           let o = { o_mismatch = pol t.(2).[0]; o_overflow = pol t.(2).[1] } in
           let data = parse_hexbytes t.(Array.length t - 1) in
@@ -102,12 +107,18 @@ let () =
           let show = function
             | Ok (l, pos) ->
               let s = fmt_answers names l in
-              let threw = (match List.rev l with AErrOf _ :: _ -> true | _ -> false) in
+              let threw = (match List.rev l with (AErrOf _ | AIOErr) :: _ -> true | _ -> false) in
               if errpos && threw then s ^ " " ^ string_of_int (int_of_n pos) else s
             | Fault -> "FAULT" in
-          if t.(1) = "m" then begin
+          if t.(0) = "k" then begin
+            let k = int_of_string (String.sub t.(1) 1 (String.length t.(1) - 1)) in
+            print_endline (if nonseek_ok narrow widen (nat_of_int k) data fuel o ops then "LOCAL" else "NONLOCAL")
+          end else if t.(1) = "m" then begin
             if errpos then print_endline "UNSUPPORTED"
             else print_endline (fmt_answers names (str_run narrow widen data o ops))
+          end else if t.(1).[0] = 'n' then begin
+            let k = int_of_string (String.sub t.(1) 1 (String.length t.(1) - 1)) in
+            print_endline (show (mps_run_bsr_pos narrow widen (nat_of_int k) (stream_of data false) fuel o ops))
           end else begin
             let a_mem = show (mps_run_mem_pos narrow widen (nat_of_int 256) data fuel o ops) in
             let a_k8 = show (mps_run_bsr_pos narrow widen (nat_of_int 8) (stream_of data true) fuel o ops) in
